@@ -8,7 +8,14 @@ from . import meta as gm, recording as rec
 STEM = "_spikeglx_ephysData_g0_t0.imec0.ap"
 # run names are the experimenter's choice; SpikeGLX appends _g<gate>_t<trigger>.imec<probe>.<band>. Some of these contain the
 # band tags as ordinary letters ("mapping", "apical_lfp").
-STEMS = [STEM, STEM, STEM, "mapping_g0_t0.imec0.ap", "apical_lfp_g2_t1.imec1.ap", "snap_g0_t3.imec0.ap", "KS091_g0_t0.imec2.ap"]
+# a registered dataset carries its UUID between the band tag and the extension (spikeglx._get_companion_file supports that form)
+STEM_UUID = "run_g0_t0.imec0.ap.e510da60-025e-4f6b-bb6f-a0d3e0b3b2d5"
+STEMS = [STEM, STEM, STEM, "mapping_g0_t0.imec0.ap", "apical_lfp_g2_t1.imec1.ap", "snap_g0_t3.imec0.ap", "KS091_g0_t0.imec2.ap",
+         STEM_UUID]
+
+
+def has_uuid(stem):
+    return bool(stem) and stem.count("-") >= 4
 
 
 def make_session(root, spec, D, cbin=False, chunk=3000, label="probe00", stem=None):
@@ -47,7 +54,7 @@ def read_raw(path, nc):
 def find_data(folder, kind="ap"):
     """The .bin or .cbin file of the given kind in a shank folder (None if absent)."""
     for suf in (".bin", ".cbin"):
-        c = sorted(Path(folder).glob(f"*.{kind}{suf}"))
+        c = sorted(Path(folder).glob(f"*.{kind}{suf}")) + sorted(Path(folder).glob(f"*.{kind}.*{suf}"))
         if c:
             return c[0]
     return None
